@@ -1,4 +1,7 @@
 import ArimModel.Das
+import ArimProofs.Lemmas.Das
+import Mathlib.Data.Rat.Floor
+import Mathlib.Tactic.NormNum.Basic
 import Mathlib.Analysis.InnerProductSpace.Basic
 /-! # C02 — delay-and-sum image equals its mathematical definition -/
 namespace Arim.C02
@@ -54,5 +57,627 @@ theorem dispatch_table (hasAmp : Bool) (agg : Agg) (it : Interp) (c128 : Bool) :
       (hasAmp = false ∧ c128 = true ∧ agg = .median ∧ it ≠ .linear) ∨
       (hasAmp = false ∧ c128 = true ∧ agg = .huber ∧ ∃ a, it = .lanczos a) := by
   cases hasAmp <;> cases agg <;> cases it <;> cases c128 <;> simp [dispatch]
+
+/-! ## The kernels over a linearly ordered field with floor -/
+section Das
+variable {K : Type} [Field K] [LinearOrder K] [FloorRing K]
+
+omit [LinearOrder K] [FloorRing K] in
+/-- **The accumulation loop is the mean.** `dasMean` (a left fold over the timetraces followed
+by a division) is `(1/N)·Σ_k (term_k or fill)`, for every number of timetraces. -/
+theorem dasMean_eq_sum (fill : K) (N : Nat) (term : Nat → Option K) :
+    dasMean stdData fill N term = (∑ k ∈ Finset.range N, (term k).getD fill) / (N : K) := by
+  unfold dasMean
+  simp only [stdData_divNat, stdData_add, stdData_zero]
+  rw [foldl_range_add]
+
+omit [LinearOrder K] [FloorRing K] in
+/-- the mean kernel is the arithmetic mean of exactly the delayed samples that the robust
+aggregations (median, Huber) receive -/
+theorem dasMean_eq_delayedSamples (fill : K) (N : Nat) (term : Nat → Option K) :
+    dasMean stdData fill N term = (delayedSamples fill N term).sum / (N : K) := by
+  rw [dasMean_eq_sum]; unfold delayedSamples; rw [sum_map_range]
+
+/-! ### round half even -/
+
+/-- `round`: within one half of the argument, ties to the even neighbour. Together these
+determine the value (`Arim.Das.roundHalfEven_eq_iff`), and it is a nearest integer
+(`Arim.Das.roundHalfEven_nearest`). -/
+theorem roundHalfEven_spec [IsStrictOrderedRing K] (x : K) :
+    |x - (roundHalfEven x : K)| ≤ 1 / 2 ∧
+      (|x - (roundHalfEven x : K)| = 1 / 2 → roundHalfEven x % 2 = 0) :=
+  ⟨roundHalfEven_abs_le x, roundHalfEven_tie_even x⟩
+
+/-! ### the kernels with the standard primitives, unfolded -/
+
+theorem interpNearest_std {β : Type} (sinc : K → K) (n : Nat) (g : Nat → β) (loc : K) :
+    interpNearest (stdOps sinc) n g loc =
+      if roundHalfEven loc < 0 ∨ roundHalfEven loc ≥ (n : Int) then none
+      else some (g (roundHalfEven loc).toNat) := rfl
+
+theorem interpLinearA_std (sinc : K → K) (n : Nat) (g : Nat → K) (loc : K) :
+    interpLinearA (stdOps sinc) stdData n g loc =
+      if ⌊loc⌋ < 0 ∨ ⌊loc⌋ + 1 ≥ (n : Int) then none
+      else some (g ⌊loc⌋.toNat + (loc - (⌊loc⌋ : K)) * (g (⌊loc⌋ + 1).toNat - g ⌊loc⌋.toNat)) := rfl
+
+theorem interpLinearB_std (sinc : K → K) (n : Nat) (g : Nat → K) (loc : K) :
+    interpLinearB (stdOps sinc) stdData n g loc =
+      if ⌊loc⌋ < 0 ∨ ⌊loc⌋ + 1 ≥ (n : Int) then none
+      else some ((((1 : Int) : K) - (loc - (⌊loc⌋ : K))) * g ⌊loc⌋.toNat +
+        (loc - (⌊loc⌋ : K)) * g (⌊loc⌋ + 1).toNat) := rfl
+
+/-! ### nearest -/
+
+/-- nearest-neighbour lookup: in-window iff the round-half-even index is in `[0, n)` -/
+theorem nearest_spec {β : Type} (sinc : K → K) (n : Nat) (g : Nat → β) (loc : K) (v : β) :
+    interpNearest (stdOps sinc) n g loc = some v ↔
+      ∃ i : Nat, i < n ∧ roundHalfEven loc = (i : Int) ∧ v = g i := by
+  rw [interpNearest_std]
+  split
+  · rename_i h
+    constructor
+    · intro h'; cases h'
+    · rintro ⟨i, hi, hr, _⟩; omega
+  · rename_i h
+    constructor
+    · intro hv
+      refine ⟨(roundHalfEven loc).toNat, by omega, by omega, ?_⟩
+      exact (Option.some.inj hv).symm
+    · rintro ⟨i, _, hr, rfl⟩
+      rw [hr]; rfl
+
+theorem nearest_none {β : Type} (sinc : K → K) (n : Nat) (g : Nat → β) (loc : K) :
+    interpNearest (stdOps sinc) n g loc = none ↔
+      roundHalfEven loc < 0 ∨ (n : Int) ≤ roundHalfEven loc := by
+  rw [interpNearest_std]
+  split
+  · rename_i h; simpa using h
+  · rename_i h; simpa using h
+
+/-! ### linear -/
+
+theorem floor_eq_natCast_iff (loc : K) (i : Nat) :
+    ⌊loc⌋ = (i : Int) ↔ (i : K) ≤ loc ∧ loc < (i : K) + 1 := by
+  rw [Int.floor_eq_iff, Int.cast_natCast]
+
+theorem linearA_of_floor (sinc : K → K) (n : Nat) (g : Nat → K) (loc : K) (i : Nat)
+    (h : ⌊loc⌋ = (i : Int)) :
+    interpLinearA (stdOps sinc) stdData n g loc =
+      if i + 1 < n then some (g i + (loc - (i : K)) * (g (i + 1) - g i)) else none := by
+  rw [interpLinearA_std]
+  simp only [h, Int.cast_natCast, Int.toNat_natCast]
+  have h1 : ((i : Int) + 1).toNat = i + 1 := by omega
+  rw [h1]
+  by_cases hn : i + 1 < n
+  · rw [if_neg (by omega), if_pos hn]
+  · rw [if_pos (by omega), if_neg hn]
+
+/-- **A lookup before the recorded window always yields the fill value.** (The clause a
+truncating `int()` implementation violates for `-1 < loc < 0`, see `linear_trunc_counter`.) -/
+theorem linear_none_of_neg (sinc : K → K) (n : Nat) (g : Nat → K) (loc : K) (h : loc < 0) :
+    interpLinearA (stdOps sinc) stdData n g loc = none := by
+  rw [interpLinearA_std]
+  have : ⌊loc⌋ < 0 := by
+    rw [Int.floor_lt]; simpa using h
+  rw [if_pos (Or.inl this)]
+
+/-- **Linear interpolation**: in-window iff `i ≤ loc < i+1` for a sample index `i` with
+`i + 1 < n`, and then the value is `g i + (loc - i)·(g (i+1) - g i)`. -/
+theorem linear_spec (sinc : K → K) (n : Nat) (g : Nat → K) (loc v : K) :
+    interpLinearA (stdOps sinc) stdData n g loc = some v ↔
+      ∃ i : Nat, (i : K) ≤ loc ∧ loc < (i : K) + 1 ∧ i + 1 < n ∧
+        v = g i + (loc - (i : K)) * (g (i + 1) - g i) := by
+  constructor
+  · intro hv
+    by_cases hneg : loc < 0
+    · rw [linear_none_of_neg sinc n g loc hneg] at hv; cases hv
+    · have h0 : 0 ≤ ⌊loc⌋ := Int.floor_nonneg.mpr (not_lt.mp hneg)
+      have hi : ⌊loc⌋ = ((⌊loc⌋.toNat : Nat) : Int) := by omega
+      rw [linearA_of_floor sinc n g loc _ hi] at hv
+      obtain ⟨hl, hu⟩ := (floor_eq_natCast_iff loc _).mp hi
+      refine ⟨⌊loc⌋.toNat, hl, hu, ?_⟩
+      split at hv
+      · rename_i hn; exact ⟨hn, (Option.some.inj hv).symm⟩
+      · cases hv
+  · rintro ⟨i, hl, hu, hn, rfl⟩
+    rw [linearA_of_floor sinc n g loc i ((floor_eq_natCast_iff loc i).mpr ⟨hl, hu⟩), if_pos hn]
+
+/-- `none` iff before the window or the right neighbour is missing -/
+theorem linear_none_iff [IsStrictOrderedRing K] (sinc : K → K) (n : Nat) (g : Nat → K) (loc : K) :
+    interpLinearA (stdOps sinc) stdData n g loc = none ↔ loc < 0 ∨ (n : K) ≤ loc + 1 := by
+  rw [interpLinearA_std]
+  have e1 : ⌊loc⌋ < 0 ↔ loc < 0 := by rw [Int.floor_lt]; simp
+  have e2 : ⌊loc⌋ + 1 ≥ (n : Int) ↔ (n : K) ≤ loc + 1 := by
+    rw [ge_iff_le, ← Int.floor_add_one, Int.le_floor, Int.cast_natCast]
+  split
+  · rename_i h; rw [e1, e2] at h; simpa using h
+  · rename_i h; rw [e1, e2] at h; simpa using h
+
+/-- linear interpolation reproduces the sample at a node -/
+theorem linear_node [IsStrictOrderedRing K] (sinc : K → K) (n : Nat) (g : Nat → K) (loc : K) (i : Nat)
+    (hloc : loc = (i : K)) (hn : i + 1 < n) :
+    interpLinearA (stdOps sinc) stdData n g loc = some (g i) := by
+  subst hloc
+  rw [linearA_of_floor sinc n g _ i (Int.floor_natCast i), if_pos hn]
+  simp
+
+/-- between two nodes the value is a convex combination of the neighbouring samples -/
+theorem linear_between [IsStrictOrderedRing K] (sinc : K → K) (n : Nat) (g : Nat → K) (loc : K) (i : Nat)
+    (h0 : (i : K) ≤ loc) (h1 : loc < (i : K) + 1) (hn : i + 1 < n) :
+    ∃ v, interpLinearA (stdOps sinc) stdData n g loc = some v ∧
+      v = (1 - (loc - (i : K))) * g i + (loc - (i : K)) * g (i + 1) ∧
+      0 ≤ loc - (i : K) ∧ loc - (i : K) < 1 ∧
+      min (g i) (g (i + 1)) ≤ v ∧ v ≤ max (g i) (g (i + 1)) := by
+  refine ⟨_, (linear_spec sinc n g loc _).mpr ⟨i, h0, h1, hn, rfl⟩, by ring, by linarith,
+    by linarith, ?_, ?_⟩
+  · have ht0 : 0 ≤ loc - (i : K) := by linarith
+    have ht1 : 0 ≤ 1 - (loc - (i : K)) := by linarith
+    rcases le_total (g i) (g (i + 1)) with hab | hab
+    · rw [min_eq_left hab]
+      have := mul_nonneg ht0 (sub_nonneg.mpr hab)
+      linarith
+    · rw [min_eq_right hab]
+      have := mul_nonneg ht1 (sub_nonneg.mpr hab)
+      nlinarith
+  · have ht0 : 0 ≤ loc - (i : K) := by linarith
+    have ht1 : 0 ≤ 1 - (loc - (i : K)) := by linarith
+    rcases le_total (g i) (g (i + 1)) with hab | hab
+    · rw [max_eq_right hab]
+      have := mul_nonneg ht1 (sub_nonneg.mpr hab)
+      nlinarith
+    · rw [max_eq_left hab]
+      have := mul_nonneg ht0 (sub_nonneg.mpr hab)
+      linarith
+
+/-- the two ways the kernels write the linear interpolation agree -/
+theorem linearA_eq_linearB (sinc : K → K) (n : Nat) (g : Nat → K) (loc : K) :
+    interpLinearA (stdOps sinc) stdData n g loc = interpLinearB (stdOps sinc) stdData n g loc := by
+  rw [interpLinearA_std, interpLinearB_std, Int.cast_one]
+  split
+  · rfl
+  · congr 1; ring
+
+/-! ### truncation toward zero is *not* a model of the kernel -/
+
+/-- `interpLinearA` with the sample index computed by truncation toward zero (what `int(loc)`
+does) instead of `floor`. -/
+def interpLinearTrunc {α β : Type} [Sub α] [Neg α] [LT α] [DecidableLT α]
+    (ops : Ops α) (d : Data α β) (n : Nat) (g : Nat → β) (loc : α) : Option β :=
+  let i := if loc < ops.ofInt 0 then - ops.floor (-loc) else ops.floor loc
+  let frac := loc - ops.ofInt i
+  if i < 0 ∨ i + 1 ≥ (n : Int) then none
+  else some (d.add (g i.toNat) (d.smul frac (d.sub (g (i + 1).toNat) (g i.toNat))))
+
+theorem interpLinearTrunc_std (sinc : K → K) (n : Nat) (g : Nat → K) (loc : K) :
+    interpLinearTrunc (stdOps sinc) stdData n g loc =
+      if (if loc < ((0 : Int) : K) then -⌊-loc⌋ else ⌊loc⌋) < 0 ∨
+          (if loc < ((0 : Int) : K) then -⌊-loc⌋ else ⌊loc⌋) + 1 ≥ (n : Int) then none
+      else some (g (if loc < ((0 : Int) : K) then -⌊-loc⌋ else ⌊loc⌋).toNat +
+        (loc - ((if loc < ((0 : Int) : K) then -⌊-loc⌋ else ⌊loc⌋ : Int) : K)) *
+          (g ((if loc < ((0 : Int) : K) then -⌊-loc⌋ else ⌊loc⌋) + 1).toNat -
+            g (if loc < ((0 : Int) : K) then -⌊-loc⌋ else ⌊loc⌋).toNat)) := rfl
+
+/-- for `0 ≤ loc` truncation and floor agree -/
+theorem linear_trunc_eq_of_nonneg (sinc : K → K) (n : Nat) (g : Nat → K) (loc : K)
+    (h : 0 ≤ loc) :
+    interpLinearTrunc (stdOps sinc) stdData n g loc =
+      interpLinearA (stdOps sinc) stdData n g loc := by
+  rw [interpLinearTrunc_std, interpLinearA_std, Int.cast_zero, if_neg (not_lt.mpr h)]
+
+/-- **The truncating variant extrapolates before the window**: for `-1 < loc < 0` it returns
+`g 0 + loc·(g 1 - g 0)` where the kernel (and the specification) return the fill value. -/
+theorem linear_trunc_extrapolates [IsStrictOrderedRing K] (sinc : K → K) (n : Nat) (g : Nat → K) (loc : K)
+    (h0 : -1 < loc) (h1 : loc < 0) (hn : 1 < n) :
+    interpLinearTrunc (stdOps sinc) stdData n g loc = some (g 0 + loc * (g 1 - g 0)) ∧
+      interpLinearA (stdOps sinc) stdData n g loc = none := by
+  refine ⟨?_, linear_none_of_neg sinc n g loc h1⟩
+  have hf : ⌊-loc⌋ = 0 := by
+    rw [Int.floor_eq_iff]; constructor <;> push_cast <;> linarith
+  rw [interpLinearTrunc_std, Int.cast_zero, if_pos h1, hf]
+  rw [if_neg (by omega)]
+  simp
+
+/-- the concrete witness over `ℚ`: four samples, lookup at `-1/4` -/
+theorem linear_trunc_counter (sinc : ℚ → ℚ) (g : Nat → ℚ) :
+    interpLinearTrunc (stdOps sinc) stdData 4 g (-(1 / 4) : ℚ) =
+      some (g 0 + (-(1 / 4)) * (g 1 - g 0)) :=
+  (linear_trunc_extrapolates sinc 4 g (-(1 / 4)) (by norm_num) (by norm_num) (by norm_num)).1
+
+/-! ### Lanczos -/
+
+/-- the Lanczos fold is the windowed sum `Σ_{k<2a} L(loc - j_k) · g[j_k mod n]`,
+`j_k = ⌊loc⌋ - a + 1 + k`, `L x = sinc x · sinc (x/a)` -/
+theorem interpLanczos_std (sinc : K → K) (a n : Nat) (g : Nat → K) (loc : K) :
+    interpLanczos (stdOps sinc) stdData a n g loc =
+      if loc < ((0 : Int) : K) ∨ ¬ loc < (((n : Nat) : Int) : K) then none
+      else some (∑ k ∈ Finset.range (2 * a),
+        sinc (loc - ((⌊loc⌋ - (a : Int) + 1 + (k : Int) : Int) : K)) *
+          sinc ((loc - ((⌊loc⌋ - (a : Int) + 1 + (k : Int) : Int) : K)) / (((a : Nat) : Int) : K)) *
+          g ((⌊loc⌋ - (a : Int) + 1 + (k : Int)) % (n : Int)).toNat) := by
+  unfold interpLanczos
+  refine ite_congr rfl (fun _ => rfl) (fun _ => congrArg some ?_)
+  exact foldl_range_add _ _
+
+theorem lanczos_none_iff (sinc : K → K) (a n : Nat) (g : Nat → K) (loc : K) :
+    interpLanczos (stdOps sinc) stdData a n g loc = none ↔ loc < 0 ∨ (n : K) ≤ loc := by
+  rw [interpLanczos_std, Int.cast_zero, Int.cast_natCast]
+  split
+  · rename_i h; simpa using h
+  · rename_i h; simpa using h
+
+/-- **Lanczos interpolation reproduces the samples at integer locations**, for any `sinc`
+with `sinc 0 = 1` vanishing at the non-zero integers. -/
+theorem lanczos_node [IsStrictOrderedRing K] (sinc : K → K) (h0 : sinc 0 = 1) (hz : ∀ z : Int, z ≠ 0 → sinc (z : K) = 0)
+    (a n : Nat) (ha : 1 ≤ a) (g : Nat → K) (loc : K) (i : Nat) (hloc : loc = (i : K))
+    (hi : i < n) :
+    interpLanczos (stdOps sinc) stdData a n g loc = some (g i) := by
+  subst hloc
+  rw [interpLanczos_std, Int.cast_zero, Int.cast_natCast, Int.floor_natCast]
+  have hlt : ¬ ((i : K) < 0 ∨ ¬ (i : K) < (n : K)) := by
+    rintro (h | h)
+    · exact absurd h (not_lt.mpr (Nat.cast_nonneg i))
+    · exact h (Nat.cast_lt.mpr hi)
+  rw [if_neg hlt]
+  congr 1
+  have hx : ∀ k : Nat, (i : K) - (((i : Int) - (a : Int) + 1 + (k : Int) : Int) : K) =
+      (((a : Int) - 1 - (k : Int) : Int) : K) := by
+    intro k; push_cast; ring
+  rw [Finset.sum_eq_single (a - 1)]
+  · rw [hx]
+    have e1 : (a : Int) - 1 - ((a - 1 : Nat) : Int) = 0 := by omega
+    have e2 : ((i : Int) - (a : Int) + 1 + ((a - 1 : Nat) : Int)) % (n : Int) = (i : Int) := by
+      have : (i : Int) - (a : Int) + 1 + ((a - 1 : Nat) : Int) = (i : Int) := by omega
+      rw [this]
+      exact Int.emod_eq_of_lt (by omega) (by omega)
+    rw [e1, e2]
+    simp [h0]
+  · intro k _ hk
+    rw [hx, hz _ (by omega)]
+    simp
+  · intro h
+    exfalso; apply h
+    rw [Finset.mem_range]; omega
+
+/-! ### amplitudes identically one -/
+
+/-- the two location formulas agree (in a field `x / dt = x * (1 / dt)`, also for `dt = 0`) -/
+theorem locB_eq_locA (sinc : K → K) (p : Problem K K) (pt k : Nat) :
+    locB (stdOps sinc) p pt k = locA p pt k := by
+  unfold locB locA
+  rw [stdOps_ofInt, Int.cast_one, ← div_eq_mul_one_div]
+
+/-- **Unit amplitudes**: the amplitude kernels with all amplitudes `1` compute the same
+image as the uniform-amplitude kernels (nearest and linear). No hypothesis on `dt` is needed. -/
+theorem das_amp_one (sinc : K → K) (p : Problem K K) (it : Interp)
+    (hit : it = .nearest ∨ it = .linear) (fill : K) (pt : Nat) :
+    dasAmp (stdOps sinc) stdData p (fun _ _ => 1) (fun _ _ => 1) it fill pt =
+      dasNoAmp (stdOps sinc) stdData p it fill pt := by
+  unfold dasAmp dasNoAmp
+  congr 1
+  funext k
+  rcases hit with rfl | rfl
+  · simp [termAmp, termNoAmp, locB_eq_locA]
+  · simp [termAmp, termNoAmp, locB_eq_locA, linearA_eq_linearB]
+
+/-- with amplitudes the Lanczos terms are all `none` (the dispatcher refuses this case) -/
+theorem das_amp_lanczos (sinc : K → K) (p : Problem K K) (ampTx ampRx : Nat → Nat → K) (a : Nat)
+    (fill : K) (pt : Nat) :
+    dasAmp (stdOps sinc) stdData p ampTx ampRx (.lanczos a) fill pt =
+      (p.N : K) * fill / (p.N : K) := by
+  unfold dasAmp
+  rw [dasMean_eq_sum]
+  simp [termAmp]
+
+/-! ### weights -/
+
+omit [LinearOrder K] [FloorRing K] in
+theorem weigh_spec (w : Nat → K) (g : Nat → Nat → K) (k i : Nat) :
+    weigh stdData (some w) g k i = w k * g k i := rfl
+
+omit [LinearOrder K] [FloorRing K] in
+theorem weigh_none (g : Nat → Nat → K) : weigh (stdData : Data K K) none g = g := rfl
+
+/-- the interpolator selected by `it` in the uniform-amplitude kernels -/
+def interp {α β : Type} [Add α] [Sub α] [Mul α] [Div α] [LT α] [DecidableLT α]
+    (ops : Ops α) (d : Data α β) (it : Interp) (n : Nat) (g : Nat → β) (loc : α) : Option β :=
+  match it with
+  | .nearest => interpNearest ops n g loc
+  | .linear => interpLinearB ops d n g loc
+  | .lanczos a => interpLanczos ops d a n g loc
+
+theorem termNoAmp_eq_interp {α β : Type} [Add α] [Sub α] [Mul α] [Div α] [LT α] [DecidableLT α]
+    (ops : Ops α) (d : Data α β) (p : Problem α β) (it : Interp) (pt k : Nat) :
+    termNoAmp ops d p it pt k = interp ops d it p.n (p.g k) (locB ops p pt k) := by
+  cases it <;> rfl
+
+theorem nearest_scale (sinc : K → K) (n : Nat) (g : Nat → K) (loc c : K) :
+    interpNearest (stdOps sinc) n (fun i => c * g i) loc =
+      (interpNearest (stdOps sinc) n g loc).map (c * ·) := by
+  rw [interpNearest_std, interpNearest_std]
+  split <;> rfl
+
+theorem linearA_scale (sinc : K → K) (n : Nat) (g : Nat → K) (loc c : K) :
+    interpLinearA (stdOps sinc) stdData n (fun i => c * g i) loc =
+      (interpLinearA (stdOps sinc) stdData n g loc).map (c * ·) := by
+  rw [interpLinearA_std, interpLinearA_std]
+  split
+  · rfl
+  · simp only [Option.map_some]; congr 1; ring
+
+theorem linearB_scale (sinc : K → K) (n : Nat) (g : Nat → K) (loc c : K) :
+    interpLinearB (stdOps sinc) stdData n (fun i => c * g i) loc =
+      (interpLinearB (stdOps sinc) stdData n g loc).map (c * ·) := by
+  rw [← linearA_eq_linearB, ← linearA_eq_linearB, linearA_scale]
+
+theorem lanczos_scale (sinc : K → K) (a n : Nat) (g : Nat → K) (loc c : K) :
+    interpLanczos (stdOps sinc) stdData a n (fun i => c * g i) loc =
+      (interpLanczos (stdOps sinc) stdData a n g loc).map (c * ·) := by
+  rw [interpLanczos_std, interpLanczos_std]
+  split
+  · rfl
+  · simp only [Option.map_some]
+    congr 1
+    rw [Finset.mul_sum]
+    refine Finset.sum_congr rfl (fun k _ => ?_)
+    ring
+
+/-- every interpolator is linear in the samples: scaling the timetrace scales the value and
+does not change the window -/
+theorem interp_scale (sinc : K → K) (it : Interp) (n : Nat) (g : Nat → K) (loc c : K) :
+    interp (stdOps sinc) stdData it n (fun i => c * g i) loc =
+      (interp (stdOps sinc) stdData it n g loc).map (c * ·) := by
+  cases it
+  · exact nearest_scale sinc n g loc c
+  · exact linearB_scale sinc n g loc c
+  · exact lanczos_scale sinc _ n g loc c
+
+/-- **Delay-and-sum is its definition.** With timetrace weights `w` applied by `weigh`, the
+uniform-amplitude image value at `pt` is `(1/N)·Σ_k (w_k · g0_k(τ_k) or fill)` where
+`τ_k = (ltTx pt tx_k + ltRx pt rx_k - t0)/dt` is the sample location (`locB_eq_locA`) and
+`g0_k(τ)` the chosen interpolation of the unweighted timetrace (`nearest_spec`, `linear_spec`
+with `linearA_eq_linearB`, `interpLanczos_std`). -/
+theorem das_definition (sinc : K → K) (p : Problem K K) (w : Nat → K) (g0 : Nat → Nat → K)
+    (it : Interp) (fill : K) (pt : Nat) :
+    dasNoAmp (stdOps sinc) stdData { p with g := weigh stdData (some w) g0 } it fill pt =
+      (∑ k ∈ Finset.range p.N,
+        match interp (stdOps sinc) stdData it p.n (g0 k) (locA p pt k) with
+        | some v => w k * v
+        | none => fill) / (p.N : K) := by
+  unfold dasNoAmp
+  rw [dasMean_eq_sum]
+  congr 1
+  refine Finset.sum_congr rfl (fun k _ => ?_)
+  rw [termNoAmp_eq_interp, ← locB_eq_locA sinc]
+  have : (weigh stdData (some w) g0) k = fun i => w k * g0 k i := rfl
+  show (interp (stdOps sinc) stdData it p.n (weigh stdData (some w) g0 k)
+    (locB (stdOps sinc) p pt k)).getD fill = _
+  rw [this, interp_scale]
+  cases interp (stdOps sinc) stdData it p.n (g0 k) (locB (stdOps sinc) p pt k) <;> rfl
+
+/-- without weights -/
+theorem das_definition_unweighted (sinc : K → K) (p : Problem K K) (it : Interp) (fill : K)
+    (pt : Nat) :
+    dasNoAmp (stdOps sinc) stdData p it fill pt =
+      (∑ k ∈ Finset.range p.N,
+        (interp (stdOps sinc) stdData it p.n (p.g k) (locA p pt k)).getD fill) / (p.N : K) := by
+  unfold dasNoAmp
+  rw [dasMean_eq_sum]
+  congr 1
+  refine Finset.sum_congr rfl (fun k _ => ?_)
+  rw [termNoAmp_eq_interp, locB_eq_locA]
+
+end Das
+
+/-! ## Samples in an algebra over the time scalars (complex samples, real times) -/
+section Alg
+variable {K V : Type} [Field K] [LinearOrder K] [FloorRing K]
+  [Ring V] [Algebra K V]
+
+omit [LinearOrder K] [FloorRing K] in
+theorem dasMean_eq_sum_alg (fill : V) (N : Nat) (term : Nat → Option V) :
+    dasMean (algData : Data K V) fill N term =
+      ((N : K))⁻¹ • ∑ k ∈ Finset.range N, (term k).getD fill := by
+  unfold dasMean
+  simp only [algData_divNat, algData_add, algData_zero]
+  rw [foldl_range_add]
+
+theorem interpLinearA_alg (sinc : K → K) (n : Nat) (g : Nat → V) (loc : K) :
+    interpLinearA (stdOps sinc) algData n g loc =
+      if ⌊loc⌋ < 0 ∨ ⌊loc⌋ + 1 ≥ (n : Int) then none
+      else some (g ⌊loc⌋.toNat + (loc - (⌊loc⌋ : K)) • (g (⌊loc⌋ + 1).toNat - g ⌊loc⌋.toNat)) := rfl
+
+theorem interpLinearB_alg (sinc : K → K) (n : Nat) (g : Nat → V) (loc : K) :
+    interpLinearB (stdOps sinc) algData n g loc =
+      if ⌊loc⌋ < 0 ∨ ⌊loc⌋ + 1 ≥ (n : Int) then none
+      else some ((((1 : Int) : K) - (loc - (⌊loc⌋ : K))) • g ⌊loc⌋.toNat +
+        (loc - (⌊loc⌋ : K)) • g (⌊loc⌋ + 1).toNat) := rfl
+
+theorem interpLanczos_alg (sinc : K → K) (a n : Nat) (g : Nat → V) (loc : K) :
+    interpLanczos (stdOps sinc) algData a n g loc =
+      if loc < ((0 : Int) : K) ∨ ¬ loc < (((n : Nat) : Int) : K) then none
+      else some (∑ k ∈ Finset.range (2 * a),
+        (sinc (loc - ((⌊loc⌋ - (a : Int) + 1 + (k : Int) : Int) : K)) *
+          sinc ((loc - ((⌊loc⌋ - (a : Int) + 1 + (k : Int) : Int) : K)) / (((a : Nat) : Int) : K))) •
+          g ((⌊loc⌋ - (a : Int) + 1 + (k : Int)) % (n : Int)).toNat) := by
+  unfold interpLanczos
+  refine ite_congr rfl (fun _ => rfl) (fun _ => congrArg some ?_)
+  exact foldl_range_add _ _
+
+theorem linearA_eq_linearB_alg (sinc : K → K) (n : Nat) (g : Nat → V) (loc : K) :
+    interpLinearA (stdOps sinc) algData n g loc = interpLinearB (stdOps sinc) algData n g loc := by
+  rw [interpLinearA_alg, interpLinearB_alg, Int.cast_one]
+  split
+  · rfl
+  · congr 1; module
+
+/-- linear interpolation of algebra-valued samples: same window, same formula -/
+theorem linear_spec_alg (sinc : K → K) (n : Nat) (g : Nat → V) (loc : K) (v : V) :
+    interpLinearA (stdOps sinc) algData n g loc = some v ↔
+      ∃ i : Nat, (i : K) ≤ loc ∧ loc < (i : K) + 1 ∧ i + 1 < n ∧
+        v = g i + (loc - (i : K)) • (g (i + 1) - g i) := by
+  rw [interpLinearA_alg]
+  constructor
+  · intro hv
+    split at hv
+    · cases hv
+    · rename_i h
+      have hi : ⌊loc⌋ = ((⌊loc⌋.toNat : Nat) : Int) := by omega
+      obtain ⟨hl, hu⟩ := (floor_eq_natCast_iff loc _).mp hi
+      refine ⟨⌊loc⌋.toNat, hl, hu, by omega, ?_⟩
+      have h1 : (⌊loc⌋ + 1).toNat = ⌊loc⌋.toNat + 1 := by omega
+      have h2 : ((⌊loc⌋.toNat : Nat) : K) = ((⌊loc⌋ : Int) : K) := by
+        rw [← Int.cast_natCast, ← hi]
+      rw [← h1, h2]
+      exact (Option.some.inj hv).symm
+  · rintro ⟨i, hl, hu, hn, rfl⟩
+    have hf := (floor_eq_natCast_iff loc i).mpr ⟨hl, hu⟩
+    rw [hf, if_neg (by omega)]
+    have h1 : ((i : Int) + 1).toNat = i + 1 := by omega
+    rw [h1, Int.toNat_natCast, Int.cast_natCast]
+
+theorem linear_none_iff_alg [IsStrictOrderedRing K] (sinc : K → K) (n : Nat) (g : Nat → V) (loc : K) :
+    interpLinearA (stdOps sinc) algData n g loc = none ↔ loc < 0 ∨ (n : K) ≤ loc + 1 := by
+  rw [interpLinearA_alg]
+  have e1 : ⌊loc⌋ < 0 ↔ loc < 0 := by rw [Int.floor_lt]; simp
+  have e2 : ⌊loc⌋ + 1 ≥ (n : Int) ↔ (n : K) ≤ loc + 1 := by
+    rw [ge_iff_le, ← Int.floor_add_one, Int.le_floor, Int.cast_natCast]
+  split
+  · rename_i h; rw [e1, e2] at h; simpa using h
+  · rename_i h; rw [e1, e2] at h; simpa using h
+
+omit [Ring V] [Algebra K V] in
+theorem locB_eq_locA_alg (sinc : K → K) (p : Problem K V) (pt k : Nat) :
+    locB (stdOps sinc) p pt k = locA p pt k := by
+  unfold locB locA
+  rw [stdOps_ofInt, Int.cast_one, ← div_eq_mul_one_div]
+
+theorem das_amp_one_alg (sinc : K → K) (p : Problem K V) (it : Interp)
+    (hit : it = .nearest ∨ it = .linear) (fill : V) (pt : Nat) :
+    dasAmp (stdOps sinc) algData p (fun _ _ => 1) (fun _ _ => 1) it fill pt =
+      dasNoAmp (stdOps sinc) algData p it fill pt := by
+  unfold dasAmp dasNoAmp
+  congr 1
+  funext k
+  rcases hit with rfl | rfl
+  · simp [termAmp, termNoAmp, locB_eq_locA_alg]
+  · simp [termAmp, termNoAmp, locB_eq_locA_alg, linearA_eq_linearB_alg]
+
+theorem nearest_smul (sinc : K → K) (n : Nat) (g : Nat → V) (loc c : K) :
+    interpNearest (stdOps sinc) n (fun i => c • g i) loc =
+      (interpNearest (stdOps sinc) n g loc).map (c • ·) := by
+  rw [interpNearest_std, interpNearest_std]
+  split <;> rfl
+
+theorem linearB_smul (sinc : K → K) (n : Nat) (g : Nat → V) (loc c : K) :
+    interpLinearB (stdOps sinc) algData n (fun i => c • g i) loc =
+      (interpLinearB (stdOps sinc) algData n g loc).map (c • ·) := by
+  rw [interpLinearB_alg, interpLinearB_alg]
+  split
+  · rfl
+  · simp only [Option.map_some]; congr 1; module
+
+theorem lanczos_smul (sinc : K → K) (a n : Nat) (g : Nat → V) (loc c : K) :
+    interpLanczos (stdOps sinc) algData a n (fun i => c • g i) loc =
+      (interpLanczos (stdOps sinc) algData a n g loc).map (c • ·) := by
+  rw [interpLanczos_alg, interpLanczos_alg]
+  split
+  · rfl
+  · simp only [Option.map_some]
+    congr 1
+    rw [Finset.smul_sum]
+    exact Finset.sum_congr rfl (fun k _ => smul_comm _ _ _)
+
+theorem interp_smul (sinc : K → K) (it : Interp) (n : Nat) (g : Nat → V) (loc c : K) :
+    interp (stdOps sinc) algData it n (fun i => c • g i) loc =
+      (interp (stdOps sinc) algData it n g loc).map (c • ·) := by
+  cases it
+  · exact nearest_smul sinc n g loc c
+  · exact linearB_smul sinc n g loc c
+  · exact lanczos_smul sinc _ n g loc c
+
+/-- `das_definition` for algebra-valued samples (complex data, real weights and times) -/
+theorem das_definition_alg (sinc : K → K) (p : Problem K V) (w : Nat → K) (g0 : Nat → Nat → V)
+    (it : Interp) (fill : V) (pt : Nat) :
+    dasNoAmp (stdOps sinc) algData { p with g := weigh algData (some w) g0 } it fill pt =
+      ((p.N : K))⁻¹ • ∑ k ∈ Finset.range p.N,
+        match interp (stdOps sinc) algData it p.n (g0 k) (locA p pt k) with
+        | some v => w k • v
+        | none => fill := by
+  unfold dasNoAmp
+  rw [dasMean_eq_sum_alg]
+  congr 1
+  refine Finset.sum_congr rfl (fun k _ => ?_)
+  rw [termNoAmp_eq_interp, ← locB_eq_locA_alg sinc]
+  have : (weigh algData (some w) g0) k = fun i => w k • g0 k i := rfl
+  show (interp (stdOps sinc) algData it p.n (weigh algData (some w) g0 k)
+    (locB (stdOps sinc) p pt k)).getD fill = _
+  rw [this, interp_smul]
+  cases interp (stdOps sinc) algData it p.n (g0 k) (locB (stdOps sinc) p pt k) <;> rfl
+
+end Alg
+
+/-! ## Non-vacuity: concrete rational data -/
+section Examples
+
+/-- two timetraces of four samples, `dt = 1/2`, `t0 = 0`; at point 0 the round-trip time of
+timetrace 0 is `3/4` (location `3/2`, inside) and of timetrace 1 is `-1/8` (location `-1/4`,
+before the window) -/
+def exProblem : Problem ℚ ℚ :=
+  { N := 2, n := 4, tx := fun k => k, rx := fun k => k,
+    g := fun k i => if k = 0 then (i : ℚ) + 1 else 10 * ((i : ℚ) + 1),
+    ltTx := fun _ e => if e = 0 then 1 / 2 else -(1 / 4),
+    ltRx := fun _ e => if e = 0 then 1 / 4 else 1 / 8,
+    t0 := 0, dt := 1 / 2 }
+
+example : locA exProblem 0 0 = 3 / 2 ∧ locA exProblem 0 1 = -(1 / 4) := by decide +kernel
+
+/-- timetrace 0 contributes `g[1] + (1/2)(g[2]-g[1]) = 5/2`, timetrace 1 the fill value -/
+example (sinc : ℚ → ℚ) :
+    termNoAmp (stdOps sinc) stdData exProblem .linear 0 0 = some (5 / 2) ∧
+      termNoAmp (stdOps sinc) stdData exProblem .linear 0 1 = none := by
+  have h0 : locA exProblem 0 0 = 3 / 2 := by decide +kernel
+  have h1 : locA exProblem 0 1 = -(1 / 4) := by decide +kernel
+  constructor
+  · show interpLinearB _ _ _ _ _ = _
+    rw [← linearA_eq_linearB, locB_eq_locA, h0, linear_spec]
+    exact ⟨1, by norm_num, by norm_num, by decide, by decide +kernel⟩
+  · show interpLinearB _ _ _ _ _ = _
+    rw [← linearA_eq_linearB, locB_eq_locA, h1]
+    exact linear_none_of_neg _ _ _ _ (by norm_num)
+
+example : dasNoAmp (stdOps (fun _ => 0)) stdData exProblem .linear 0 0 = 5 / 4 := by
+  decide +kernel
+example : dasNoAmp (stdOps (fun _ => 0)) stdData exProblem .linear 7 0 = 19 / 4 := by
+  decide +kernel
+/-- nearest: location `3/2` is a tie and goes to the even index 2 (`g 0 2 = 3`); location `-1/4`
+rounds to index 0, inside the window (`g 1 0 = 10`) -/
+example : dasNoAmp (stdOps (fun _ => 0)) stdData exProblem .nearest 0 0 = 13 / 2 := by
+  decide +kernel
+example : dasAmp (stdOps (fun _ => 0)) stdData exProblem (fun _ _ => 2) (fun _ _ => 3)
+    .linear 0 0 = 15 / 2 := by decide +kernel
+/-- weights `w = (2, 5)` -/
+example : dasNoAmp (stdOps (fun _ => 0)) stdData
+    { exProblem with g := weigh stdData (some fun k => if k = 0 then 2 else 5) exProblem.g }
+    .linear 0 0 = 5 / 2 := by decide +kernel
+/-- ties to even: `1/2 ↦ 0`, `3/2 ↦ 2`, `5/2 ↦ 2`, `-1/2 ↦ 0`, `-3/2 ↦ -2` -/
+example : (roundHalfEven (1 / 2 : ℚ), roundHalfEven (3 / 2 : ℚ), roundHalfEven (5 / 2 : ℚ),
+    roundHalfEven (-(1 / 2) : ℚ), roundHalfEven (-(3 / 2) : ℚ), roundHalfEven (7 / 4 : ℚ)) =
+    (0, 2, 2, 0, -2, 2) := by decide +kernel
+/-- the truncating variant and the kernel differ on this problem's second timetrace -/
+example (sinc : ℚ → ℚ) :
+    interpLinearTrunc (stdOps sinc) stdData 4 (exProblem.g 1) (locA exProblem 0 1) =
+      some (15 / 2) ∧
+    interpLinearA (stdOps sinc) stdData 4 (exProblem.g 1) (locA exProblem 0 1) = none := by
+  have h : locA exProblem 0 1 = -(1 / 4) := by decide +kernel
+  rw [h]
+  refine ⟨?_, linear_none_of_neg _ _ _ _ (by norm_num)⟩
+  rw [linear_trunc_counter]
+  congr 1
+  decide +kernel
+/-- Lanczos (a = 2) at the node `loc = 2` with a `sinc` that is `1` at `0` and `0` elsewhere -/
+example : interpLanczos (stdOps (fun x : ℚ => if x = 0 then 1 else 0)) stdData 2 4
+    (exProblem.g 0) 2 = some 3 := by decide +kernel
+
+end Examples
 
 end Arim.C02
